@@ -13,10 +13,13 @@
        static const INTEGER_t asn_VAL_<n>_<name> = { "\x00\x80", 2 };
      the contents octets of the value, written by two hand-made cases (one octet up
      to 127, two octets up to 32767, anything else is refused with a diagnostic);
-     compared by INTEGER_compare, which is 0 exactly when the two octet strings are
-     the same octets (same sign, same size, memcmp), so a cell holding anything but
-     THE minimal two's-complement octets of its identifier never matches the
-     identifier a decoder produced, and may match another one.
+     compared by INTEGER_compare, which (since the fix "INTEGER_compare takes the
+     buffer length for the magnitude") strips the superfluous leading octets of both
+     operands and is 0 exactly when what remains is the same octets, i.e. when the two
+     octet strings denote the same integer ([octets_eqb]); an empty INTEGER_t equals
+     only another empty one.  A cell whose octets denote another integer than its
+     identifier (one octet short: c8 for 200 denotes -56) loses its row and answers
+     to that other identifier.
    [cell_octets] is the reference (minimal two's-complement octets of any integer);
    [emit_wide_cell] is the compiler's emitter; [key_of] is the identifier member as
    the selector sees it; [emit_table] is the whole emitted table. *)
@@ -82,6 +85,31 @@ Definition encode_cell (v : val) : val :=
 
 Definition encode_table (tbl : table) : table := map (fun r => (encode_cell (fst r), snd r)) tbl.
 
+(* INTEGER_compare(a, b) == 0 on two INTEGER_t (non-NULL operands):
+     both empty -> equal; one empty -> not; else the signs, then the two strip loops
+     (the loop of asn_INTEGER2imax, [strip]), then the lengths, then memcmp *)
+Definition octets_eqb (a b : list Z) : bool :=
+  match a, b with
+  | [], [] => true
+  | [], _ => false
+  | _, [] => false
+  | _, _ => bytes_eqb (strip a) (strip b)
+  end.
+
+(* compare_struct == 0 between the identifier member and a cell *)
+Definition cell_eqb (rep : idrep) (key cell : val) : bool :=
+  match rep, key, cell with
+  | RWide, VOct a, VOct b => octets_eqb a b
+  | _, _, _ => id_eqb key cell
+  end.
+
+Definition select_by (eqb : val -> val -> bool) (v : val) : table -> nat -> option (nat * list ty) :=
+  fix go tbl i :=
+    match tbl with
+    | [] => None
+    | r :: tl => if eqb v (fst r) then Some (i, snd r) else go tl (S i)
+    end.
+
 (* the identifier member as the selector sees it: a long, or the INTEGER_t the
    decoder filled (minimal octets for every DER/PER/XER input) *)
 Definition key_of (rep : idrep) (v : val) : val :=
@@ -92,11 +120,12 @@ Definition key_of (rep : idrep) (v : val) : val :=
 
 (* the selector of a frame whose identifier has representation [rep] *)
 Definition select_rep (rep : idrep) (tbl : table) (v : val) : option (nat * list ty) :=
-  select tbl (key_of rep v).
+  select_by (cell_eqb rep) (key_of rep v) tbl O.
 
 (* the selector called on raw INTEGER_t contents (what a BER decoder stores for a
    non-minimal identifier, too) *)
-Definition select_octets (tbl : table) (bs : list Z) : option (nat * list ty) := select tbl (VOct bs).
+Definition select_octets (tbl : table) (bs : list Z) : option (nat * list ty) :=
+  select_by (cell_eqb RWide) (VOct bs) tbl O.
 
 (* ---------------- frames under a representation ---------------- *)
 
